@@ -54,7 +54,13 @@ impl Ctx {
             seed,
             shard,
             nshards,
-            cfg: if cfg!(feature = "libsecp") { "B" } else { "A" },
+            cfg: if cfg!(feature = "libsecp") {
+                "B"
+            } else if cfg!(feature = "ed") {
+                "A"
+            } else {
+                "D"
+            },
             layer: "release".into(),
             counters: BTreeMap::new(),
             violations: Vec::new(),
